@@ -727,20 +727,53 @@ func main() {
 	c.Set("alphabet", strings.Join(opNames, ", "))
 	c.Set("reader_specs_per_sweep", len(readerSpecs))
 	completed := map[string]int{}
-	for d := 2; d <= maxDepth && !c.Expired(); d++ {
-		for i, cf := range cfgs {
-			cf := cf
-			if c.Expired() || d > depthOf(i) {
-				continue
-			}
-			c.RunSeq(lib.SeqSpec{Name: fmt.Sprintf("depth %d cfg {%s}", d, cf), NOps: len(opNames), Depth: d,
-				Run: func(path []int) (string, bool) { return run(cf, path, d) }})
-			if !c.Expired() {
-				completed[cf.String()] = d
+	runLevels := func(from, to int) {
+		for d := from; d <= to && !c.Expired(); d++ {
+			for i, cf := range cfgs {
+				cf := cf
+				if c.Expired() || d > depthOf(i) {
+					continue
+				}
+				c.RunSeq(lib.SeqSpec{Name: fmt.Sprintf("depth %d cfg {%s}", d, cf), NOps: len(opNames), Depth: d,
+					Run: func(path []int) (string, bool) { return run(cf, path, d) }})
+				if !c.Expired() {
+					completed[cf.String()] = d
+				}
 			}
 		}
 	}
+	runLevels(2, 3)
+	// deep pass over a core alphabet (version-list copy-on-write, snapshot pinning and timestamp advances need
+	// longer sequences than the full alphabet allows): 8 operations, two configurations
+	core := []int{0, 5, 3, 8, 9, 11, 12, 16}
+	coreDepth := 5
+	if c.Thorough() {
+		coreDepth = 7
+	}
+	coreDone := map[string]int{}
+	for d := 4; d <= coreDepth && !c.Expired(); d++ {
+		for _, cf := range cfgs[:2] {
+			cf := cf
+			if c.Expired() {
+				break
+			}
+			c.RunSeq(lib.SeqSpec{Name: fmt.Sprintf("core depth %d cfg {%s}", d, cf), NOps: len(core), Depth: d,
+				Run: func(path []int) (string, bool) {
+					real := make([]int, len(path))
+					for i, o := range path {
+						real[i] = core[o]
+					}
+					return run(cf, real, d)
+				}})
+			if !c.Expired() {
+				coreDone[cf.String()] = d
+			}
+		}
+	}
+	runLevels(4, maxDepth)
 	c.Set("depth_completed_per_configuration", completed)
+	c.Set("core_alphabet", "ins(a,x), ins(a,y), ins(b,x), increaseTs(+2), snapshot(), close-oldest-snapshot, flush, reopen")
+	c.Set("core_depth_completed_per_configuration", coreDone)
 	c.Set("depth_target", maxDepth)
 	_ = bytes.Equal
 	c.Finish("every sequence over the 17-operation alphabet up to depth_completed for every configuration; after each step the live tree and every open snapshot are swept (Get, GetBetween over all windows, History over offsets/limits/directions, GetWithPrefix, every reader spec of the grid, ReadBetween over all windows) and compared with the reference multi-version map; snapshots must equal a state of the tree no older than requested and never change afterwards", !c.Expired())
